@@ -131,6 +131,12 @@ def step(ctx, case):
                             ctx.check('next message: halted iff it matches the breakpoint matcher', ret2 == bool(v2))
                     else:
                         ctx.check('next message on a connection other than the selected one never halts', ret2 is False)
+        # whatever state all this left (halted at a message, interrupted by a command, running; the user may go on with GDB's own `continue`):
+        # libwayland tearing a connection down is not a message - the program is never halted there, and nothing claims it was
+        n9 = len(w.out.items)
+        ret9 = gdbworld.fire_destroy(w, ctx.choose([A1, A2], 'destroyed_connection'))
+        ctx.check('wl_connection_destroy never halts the program (GDB halts at messages matching the breakpoint matcher, only)', ret9 is False)
+        ctx.check('and prints no halt notice', not any('Stopped at' in x for x in w.out.items[n9:]))
     finally:
         matcher.parse = saved_parse
         ctl.restore_show()
@@ -186,6 +192,8 @@ def sequences(ctx, case):
         gdbworld.fire_message(w, A1, 1, 'sync', True, 1)
         st = ('const', False)
         texts = [e for e in c12.REAL_TEXTS if e[0] in ('.m1', '.m2 ! .m3', '!', '*', '.m3, .m4', '.m1(', '! .m4')]
+        # the pseudo-messages of matchers.md: `X.new` selects whatever message creates an X, `X.destroyed` the delete_id of an X - messages with OTHER names
+        texts += [('wl_callback.new', ['NEW'], [], None), ('wl_callback.destroyed, .m4', ['DEL', 'm4'], [], None), ('! .destroyed', [], ['DEL'], 'implicit')]
         for k in range(n):
             e = ctx.choose(texts, 'text%d' % k)
             w.plugin.invoke_command(ctx.choose(['breakpoint ', 'b '], 'spelling') + e[0] if k == 0 else 'breakpoint ' + e[0])
@@ -196,12 +204,19 @@ def sequences(ctx, case):
             w.plugin.invoke_command('filter ' + filt)
         if w.plugin.paused():
             w.plugin.invoke_command('resume')
-        names = [ctx.choose(['m1', 'm3', 'm4'], 'first_message'), ctx.choose(['m1', 'm3'], 'second_message')]
+        names = [ctx.choose(['m1', 'm3', 'm4', 'NEW'], 'first_message'), ctx.choose(['m1', 'm3'], 'second_message')]
+        if names[0] == 'NEW':
+            names[1] = 'DEL'        # the callback just created is deleted again
         conn = w.manager.connections()[0]
         for j, nm in enumerate(names):
             n0, m0 = len(w.out.items), len(conn.messages())
             w.gdb._State.executed[:] = []
-            ret = gdbworld.fire_closure(w, A1, 1, Closure(nm, 'u', [{'code': 'u', 'value': 7}], None, 1), True)
+            if nm == 'NEW':
+                ret = gdbworld.fire_closure(w, A1, 1, Closure('sync', 'n', [{'code': 'n', 'id': 9, 'proxy_id': 9, 'type': 'wl_callback'}], None, 1), True)
+            elif nm == 'DEL':
+                ret = gdbworld.fire_closure(w, A1, 1, Closure('delete_id', 'u', [{'code': 'u', 'value': 9}], None, 1), False)
+            else:
+                ret = gdbworld.fire_closure(w, A1, 1, Closure(nm, 'u', [{'code': 'u', 'value': 7}], None, 1), True)
             must, mustnot = c12.verdict(st, nm)
             if must:
                 ctx.check('message %d (.%s) matches the accumulated breakpoint: the program is halted' % (j, nm), ret is True and w.plugin.paused())
